@@ -1362,6 +1362,7 @@ class Interp:
                 h = ctx.deref(b)
             if not isinstance(h, HKeySet):
                 raise Unsupported("keyset_has on a non key-set")
+            keysets.instantiate_enumeration_at(self.engine, self, h.val, keys)
             if name == "keyset_has":
                 return mk(keysets.nsel(h.val.present, keys), "bool")
             return keysets.elem_at(self.engine, self, h.val, keys)
@@ -1816,6 +1817,14 @@ class Interp:
     def s_For(self, node, fr):
         spec = self.engine.loop_spec(self, node, fr)
         it = self.as_symbolic_iterable(self.eval(node.iter, fr))
+        if spec is None and (isinstance(it, (SymSeq, SymSet, SymMap, Stream)) or models.is_symbolic_iterable(self, it)):
+            # a loop over a symbolic collection inside a helper executed inline: the code may have been moved there
+            # (and its loop variable renamed) - look for its invariant with the fallback rules
+            self.engine._symbolic_loop = True  # pylint: disable=protected-access
+            try:
+                spec = self.engine.loop_spec(self, node, fr)
+            finally:
+                self.engine._symbolic_loop = False  # pylint: disable=protected-access
         if spec is not None:
             return self.engine.exec_loop_with_invariant(self, node, fr, spec, iterable=it)
         if isinstance(it, (SymSeq, SymSet, SymMap, Stream)) or models.is_symbolic_iterable(self, it):
